@@ -31,9 +31,11 @@ from sim import chipsets as CS
 logging.disable(logging.CRITICAL)
 
 IOERRNOS = (errno.EIO, errno.ENODEV, errno.ETIMEDOUT, errno.EPIPE, errno.EACCES)
+# classes the skeletons can predict: explicit flow, and the implicit raises of operations on host data
 EXPLICIT = {'IOError', 'TimeoutError', 'BrokenLinkError', 'TransmissionError', 'ProtocolError', 'CommunicationError',
             'UnsupportedTargetError', 'ChipsetError', 'RcsCommunicationError', 'RcsStatusError', 'ValueError',
-            'BinasciiError', 'UnicodeDecodeError', 'AssertionError', 'NotImplementedError'}
+            'BinasciiError', 'UnicodeDecodeError', 'AssertionError', 'NotImplementedError',
+            'IndexError', 'StructError'}
 
 
 def class_name(t):
@@ -163,6 +165,7 @@ class Runner(object):
 
     def one(self, d, sc, k, cmd, fault, baseline, layer='api'):
         ck = self.ck
+        self.current_sc = sc
         w, tag, val, e = self.inject(d, sc, k, fault, layer)
         if not w.sim.fired and fault[0] != 'none':
             ck.count('fault-not-reached')
@@ -201,6 +204,8 @@ class Runner(object):
         if d in W.PN53X_FAMILY:
             if kind in ('status', 'empty') and w.sim.fault_payload is not None:
                 return 'pn53x %s %s %s' % (direction, pn_kind(d, cmd), hexarg(w.sim.fault_payload))
+            if kind in ('regval', 'overlong') and cmd == 0x06 and w.sim.fault_payload is not None:
+                return self.register_line(d, w, direction, fault)
             if kind == 'payload' and cmd == 0x06 and w.sim.fault_payload is not None:
                 return 'readreg %s %d %d %s' % (direction, 1 if d == 'pn533' else 0, len(w.sim.fault_cmd_data) // 2,
                                                 hexarg(w.sim.fault_payload))
@@ -228,11 +233,43 @@ class Runner(object):
             return 'udp ' + hexarg(fault[1])
         return None
 
+    def register_line(self, d, w, direction, fault):
+        """model query for a ReadRegister answer with injected values / surplus values"""
+        cd = w.sim.fault_cmd_data
+        regs = [cd[i] << 8 | cd[i + 1] for i in range(0, len(cd) - 1, 2)]
+        off = 1 if d == 'pn533' else 0
+        if fault[0] == 'overlong':
+            return 'readreg %s %d %d %s' % (direction, off, len(regs), hexarg(w.sim.fault_payload))
+        vals = list(w.sim.fault_payload[off:])
+        sc = self.current_sc
+        tt3 = sc.name.startswith('listen-tt3')
+        tt1 = sc.name.startswith('tt1-')
+        frame = list(sc.cmds[0]) if (tt3 and sc.cmds) else []
+        if regs == [0x633A]:
+            if tt3:
+                lvl = vals[0]
+                fifo = (frame + [0] * 64)[:lvl] if lvl <= 64 else []
+                return 'tt3poll 32 0 %d %s' % (lvl, hexarg(bytes(fifo)))
+            if tt1:
+                return 'tt1fifo %d' % vals[0]
+        if regs == [0x6334, 0x6335] and tt3:
+            return 'tt3poll %d %d %d %s' % (vals[0], vals[1], len(frame), hexarg(bytes(frame)))
+        if regs and all(r == 0x6339 for r in regs):
+            if tt3:
+                return 'tt3poll 32 0 %d %s' % (len(vals), hexarg(bytes(vals)))
+            if tt1:
+                return 'tt1fifo %d' % len(vals)
+        if regs == [0x6302, 0x6303, 0x6305]:
+            return 'prepregs'          # CIU_TxMode/RxMode/TxAuto: any value, the exchange goes on
+        return None
+
     def compare_models(self):
         ck = self.ck
         if self.mr is None or not self.model_q:
             return
-        out = self.mr.run([q[0] for q in self.model_q])
+        real = [q[0] for q in self.model_q if q[0] != 'prepregs']
+        it = iter(self.mr.run(real))
+        out = ['data documented' if q[0] == 'prepregs' else next(it) for q in self.model_q]
         # the word-level and the byte-level RC-S380 models must agree as well (theorem C13_rcs380_bytes_word)
         nmis = 0
         for (line, obs, baseline, case), got in zip(self.model_q, out):
@@ -244,6 +281,10 @@ class Runner(object):
                 # with a truncated payload the later steps see other data, nothing to compare then
                 good = obs == baseline or (case['driver'] == 'udp' and obs in ('ok', 'TimeoutError')) or \
                     case['fault'][0] == 'payload'
+            elif got == 'again':
+                good = obs == baseline           # the next polling round sees the normal register values
+            elif got.startswith('crc '):
+                good = obs in ('ok', 'TransmissionError')
             else:
                 good = obs == 'ok'
             if 'UNDOCUMENTED' in got:
@@ -253,6 +294,24 @@ class Runner(object):
                 ck.correspondence_mismatch('drvmap', dict(case, model=got, query=line))
         ck.cov['traces_validated_against_impl'] = len(self.model_q) - nmis
         ck.cov['skeleton_membership_checks'] = self.n_membership
+
+
+def regval_faults(ck, d, cmd, payload_len, thorough, full):
+    """ReadRegister of the PN53x family: every value 0..255 for every register of the command, and answers with
+    surplus values.  quick: all 256 values for the first three registers of a command that was not swept yet in
+    this kind of scenario, 16 sampled values otherwise"""
+    if cmd != 0x06 or d not in W.PN53X_FAMILY:
+        return []
+    n = payload_len - (1 if d == 'pn533' else 0)
+    fs = []
+    for pos in range(n):
+        if thorough or (full and pos < 3):
+            vals = range(256)
+        else:
+            vals = sorted({0, 1, 2, 3, 0x20, 0x40, 0x41, 0x7F, 0x80, 0x84, 0xFF} | {ck.rng.randrange(256) for _ in range(5)})
+        fs += [('regval', pos, v) for v in vals]
+    fs += [('overlong', m) for m in (1, 2, 5, 40)]
+    return fs
 
 
 def payload_faults(payload_len, thorough):
@@ -272,9 +331,9 @@ def runt_faults(d, cmd, thorough):
     return fs
 
 
-def fault_set(ck, d, cmd, has_status, frame_len, thorough, payload_len=0, full_sweep=True):
+def fault_set(ck, d, cmd, has_status, frame_len, thorough, payload_len=0, full_sweep=True, full_regs=True):
     rng = ck.rng
-    fs = payload_faults(payload_len, thorough)
+    fs = payload_faults(payload_len, thorough) + regval_faults(ck, d, cmd, payload_len, thorough, full_regs)
     if d == 'udp':
         fs += [('gone',)]
         if cmd == 'sendto':
@@ -329,6 +388,8 @@ def phys_fault_set(ck, d, cmd, has_status, frame_len, thorough, payload_len=0):
     a sample of codes is repeated here"""
     rng = ck.rng
     fs = payload_faults(payload_len, thorough)
+    if cmd == 0x06 and d in W.PN53X_FAMILY:
+        fs += [('regval', 0, v) for v in (0, 1, 2, 64, 65, 0x84, 0xFF)] + [('overlong', 1), ('overlong', 40)]
     if has_status:
         if d == 'rcs380' and cmd in (0x04, 0x48):
             fs += [('status32', x) for x in (0x80, 0x400, 0x480, 1, 0x80000000, rng.getrandbits(32))]
@@ -375,6 +436,11 @@ CORPUS = [
     ('acr122', 'tt4a-apdu', 0, ('payload', 2)), ('pn532', 'tt1-read8', 5, ('payload', 0)),
     ('rcs380', 'tt3-check', 2, ('payload', 1)), ('rcs380', 'tt2-read', 3, ('payload', 3)), ('rcs380', 'dep-target', 0, ('payload', 2)),
     ('rcs380', 'listen-tt4', 0, ('payload', 6)),
+    # register values and surplus values reported by ReadRegister (c13-10, c13-11, c13-12)
+    ('pn532', 'tt2-read', 0, ('overlong', 1)), ('pn533', 'listen-tt3', 1, ('overlong', 2)), ('pn532', 'listen-tt3', 3, ('overlong', 1)),
+    ('pn533', 'listen-tt3', 3, ('regval', 0, 0)), ('pn532', 'listen-tt3', 3, ('regval', 0, 200)), ('pn531', 'listen-tt3', 3, ('regval', 0, 1)),
+    ('pn532', 'tt1-read8', 5, ('regval', 0, 1)), ('pn532', 'tt1-read8', 5, ('regval', 0, 2)), ('pn532', 'tt1-read8', 5, ('regval', 0, 140)),
+    ('pn533', 'tt1-read8', 12, ('regval', 0, 1)), ('pn533', 'tt1-read8', 12, ('regval', 0, 2)), ('pn533', 'tt1-read8', 12, ('regval', 0, 255)),
     ('udp', 'tt2-read', 1, ('garbled', b'106A zz')), ('udp', 'dep-target', 1, ('garbled', b'\xff\xfe 00')),
     ('udp', 'tt4a-apdu', 1, ('garbled', b'106A 0')),
 ]
@@ -382,12 +448,22 @@ PHYS_CORPUS = [('pn532', 'tt2-read', 0, ('short', 1)), ('pn532', 'tt2-read', 3, 
                ('arygon-b', 'listen-tt4', 1, ('garbled', bytes.fromhex('0000ffffff01')))]
 
 
-def skeleton_assumptions():
+def skeleton_header():
     try:
-        txt = open(os.path.join(COQ, 'Gen', 'DriverSkel.v')).read().split('*)')[0]
-        return [ln.strip()[2:] for ln in txt.split('\n') if ln.strip().startswith('- ')]
+        return open(os.path.join(COQ, 'Gen', 'DriverSkel.v')).read().split('\n*)')[0]
     except IOError:
-        return []
+        return ''
+
+
+def skeleton_assumptions():
+    return [ln.strip()[2:] for ln in skeleton_header().split('\n') if ln.strip().startswith('- ')]
+
+
+def implicit_sites():
+    """(number of implicit-raise sites on host data proved safe, list of those not proved safe)"""
+    txt = skeleton_header()
+    m = re.search(r'proved safe by a recognised guard: (\d+)', txt)
+    return (int(m.group(1)) if m else None), [ln.strip()[2:] for ln in txt.split('\n') if ln.strip().startswith('! ')]
 
 
 def main():
@@ -400,13 +476,21 @@ def main():
            targets=['Skel/ExnSyntax.vo', 'Skel/ExnCheck.vo', 'Model/DrvMap.vo', 'Proofs/DrvMap.vo', 'Gen/DriverSkel.vo',
                     'Bridge/C13Skel.vo'],
            props='C13')
-    ck.assumptions = ['ExnCheck covers explicit exception flow (raise, handlers, primitive raise-sets); exceptions raised '
-                      'implicitly by Python operations are covered by the injection runs only',
+    nproved, unproved = implicit_sites()
+    ck.cov['implicit_raise_sites_proved_safe'] = nproved
+    ck.cov['implicit_raise_sites_not_proved_safe'] = unproved
+    ck.assumptions = ['ExnCheck covers explicit exception flow (raise, handlers, primitive raise-sets) and, conservatively, '
+                      'the implicit IndexError / ValueError / struct.error / TypeError of subscripts, unpackings, '
+                      'struct.unpack and iterations on values derived from a host response (a site counts as safe only '
+                      'under a length guard the extractor recognises); other implicit exceptions (None values, '
+                      'arithmetic, dictionary lookups, the code below transport.read/write) are covered by the '
+                      'injection runs only',
                       'fault domain of the injection runs: the host link misbehaves at the transport API (read/write of whole '
                       'frames) and, in a second pass, below the real transport.TTY / transport.USB objects (fake serial byte '
                       'stream, fake libusb handle raising USBError*); UDP: below the socket API',
                       'a well-formed response frame with a payload of every length shorter than the normal one is injected at '
-                      'every host command; longer-than-expected or differently valued register contents are not',
+                      'every host command; ReadRegister answers also with every value 0..255 per register (quick: sampled for '
+                      'repeated code paths and for FIFO positions beyond the third) and with surplus values',
                       'exchange timeouts are numbers (as every caller inside nfcpy passes them), not None',
                       'RC-S380: a response frame that cannot be used (wrong type / code / truncated) makes '
                       'send_cmd_recv_rsp return None; the monitor accepts None as a documented return value'] + \
@@ -484,7 +568,11 @@ def main():
                 full = (not quick) or (d, sc.kind, cmd) not in swept
                 if has_status:
                     swept.add((d, sc.kind, cmd))
-                for f in fault_set(ck, d, cmd, has_status, flen, not quick, plens.get(k, 0), full):
+                rkey = (d, sc.kind, 'regs', plens.get(k, 0))
+                full_regs = (not quick) or rkey not in swept
+                if cmd == 0x06:
+                    swept.add(rkey)
+                for f in fault_set(ck, d, cmd, has_status, flen, not quick, plens.get(k, 0), full, full_regs):
                     run.one(d, sc, k, cmd, f, baseline)
     # ---- the same below transport.TTY / transport.USB (fake serial line, fake libusb handle)
     for d in W.DRIVERS:
